@@ -5,7 +5,7 @@ PROPS = {"C15": dict(
     rule=("rapid-generated histories of a mirroring witness over two mirrored origins: add-checkpoint (pending +0..900), add-entries with "
           "(start,end) around next-entry / mirror / pending / ticket sizes (aligned, mid-tile, 8x256 window edges, ahead), tickets "
           "{none, valid, previous process, other origin, bit-flipped, truncated, garbage}, bodies {complete, cut after package j, cut "
-          "mid-entry / mid-proof, wrong entry bytes, other fork, wrong/foreign proof, trailing, gzip, truncated gzip}, a second request "
+          "mid-entry / mid-proof, wrong entry bytes, other fork, entries of the other origin, wrong/foreign proof, trailing, gzip, truncated gzip}, submitted checkpoints with foreign signature lines named like the witness/mirror, one or two requests "
           "or crash interleaved at a package / commit hook, single storage / lock faults (error applied or not, crash before / after) "
           "and restarts; after every request a fresh witness on a copy of the stores must complete the upload mirror->pending. "
           "non-trivial = history with at least one 200 commit after a truncated/conflicting upload or after a restart, and at least one "
